@@ -110,6 +110,107 @@ def drive_b(rec, part, count):
     rec.data["events"] = events
 
 
+class Sparse:
+    """a large anonymous mapping whose pages exist only where they are touched (MAP_NORESERVE): room for limbs that are gigabytes apart"""
+
+    def __init__(self, nbytes):
+        import ctypes
+        import numpy as np
+        c = ctypes.CDLL(None, use_errno=True)
+        c.mmap.restype = ctypes.c_void_p
+        c.mmap.argtypes = [ctypes.c_void_p, ctypes.c_size_t, ctypes.c_int, ctypes.c_int, ctypes.c_int, ctypes.c_long]
+        c.munmap.argtypes = [ctypes.c_void_p, ctypes.c_size_t]
+        self.c, self.nbytes = c, nbytes
+        base = c.mmap(None, nbytes, 3, 0x22 | 0x4000, -1, 0)          # PROT_READ|WRITE, MAP_PRIVATE|ANONYMOUS|NORESERVE
+        self.addr = None if base in (None, ctypes.c_void_p(-1).value) else base
+        self.ctypes, self.np = ctypes, np
+
+    def i64(self, byte_off, count):
+        arr = (self.ctypes.c_int64 * count).from_address(self.addr + byte_off)
+        return self.np.frombuffer(arr, dtype=self.np.int64)
+
+    def u8(self, byte_off, count):
+        arr = (self.ctypes.c_uint8 * count).from_address(self.addr + byte_off)
+        return self.np.frombuffer(arr, dtype=self.np.uint8)
+
+    def close(self):
+        if self.addr:
+            self.c.munmap(self.addr, self.nbytes)
+            self.addr = None
+
+
+def drive_huge_strides(rec, quick):
+    """limb strides of 2^29 .. 2^32 coefficients (4 .. 32 GiB between two limbs of one vector), in a sparse mapping: every output limb is
+    the operation on the operand limbs, the cells around the limbs keep their bytes, nothing else in reach is touched"""
+    import numpy as np
+    from lib import FFT64, NTT120, MASK_NONE, MASK_GENERIC
+    rng = random.Random(rec.seed * 811 + 5)
+    L = Lib.get()
+    ok = 0
+    sp = Sparse(34 << 30)
+    if sp.addr is None:
+        rec.notes.append("huge strides: a sparse mapping of 34 GiB was refused by the system (not a verdict)")
+        rec.data["ok"] = 0
+        return
+    n = 64
+    mods = {"fft64": L.module(n, FFT64, MASK_NONE), "fft64-generic": L.module(n, FFT64, MASK_GENERIC), "ntt120": L.module(n, NTT120, MASK_NONE)}
+    L.set_cpu_mask(MASK_NONE)
+    touched = []
+    for (stride, limbs) in [((1 << 31), 3), ((1 << 32) + 16, 2), ((1 << 29) + 8, 3), ((1 << 31) + 1, 2)]:
+        for op in ("copy", "negate", "add", "sub", "rotate", "automorphism", "zero"):
+            for mk in (("fft64", "fft64-generic", "ntt120") if not quick else (rng.choice(["fft64", "fft64-generic", "ntt120"]),)):
+                # which operand gets the huge stride: the result, the first or the second operand, or all of them
+                who = rng.choice(["r", "a", "b", "all"])
+                rsl = stride if who in ("r", "all") else n + 33          # (the small strides leave room for the 16-cell margins of every limb)
+                asl = stride if who in ("a", "all") else n + 35
+                bsl = stride if who in ("b", "all") else n + 32
+                base = {"r": 3 << 20, "a": 1 << 20, "b": 2 << 20}                # bases a megabyte apart: limbs of different operands never meet
+                data = {}
+                g = np.random.default_rng(rec.seed + stride % 1000 + len(op))
+                for role, sl in (("a", asl), ("b", bsl), ("r", rsl)):
+                    for i in range(limbs):
+                        off = base[role] + 8 * i * sl
+                        w = sp.i64(off - 8 * 16, n + 32)                           # the limb with 16 cells of margin on both sides
+                        w[:] = 0x4D4D4D4D4D4D4D4D
+                        v = g.integers(-(1 << 50), 1 << 50, n, dtype=np.int64)
+                        w[16:16 + n] = v
+                        data[(role, i)] = v
+                        touched.append(off)
+                p = rng.choice([1, 3, n + 1, -5]) | (1 if op == "automorphism" else 0)
+                label = "vec_znx_%s[%s] N=%d %d limbs, stride of %s = %d coefficients" % (op, mk, n, limbs, who, stride)
+                if not rec.progress(label):
+                    continue
+                import ctypes
+                R, A, B = (ctypes.c_void_p(sp.addr + base[k]) for k in ("r", "a", "b"))
+                vecops.call_op(L, mods[mk], op, p, R, limbs, rsl, A, limbs, asl, B, limbs, bsl)
+                rec.case(("huge-stride", op, mk, who, stride))
+                bad = None
+                for i in range(limbs):
+                    a, b = data[("a", i)], data[("b", i)]
+                    e = {"copy": a, "negate": -a, "add": a + b, "sub": a - b, "zero": np.zeros(n, dtype=np.int64)}.get(op)
+                    if e is None:
+                        e = vecops.ring_map("rot" if op == "rotate" else "aut", n, p, a)
+                    w = sp.i64(base["r"] + 8 * i * rsl - 8 * 16, n + 32)
+                    if not np.array_equal(w[16:16 + n], e):
+                        bad = "output limb %d is not the operation on the operand limbs %d" % (i, i)
+                    elif not ((w[:16] == 0x4D4D4D4D4D4D4D4D).all() and (w[16 + n:] == 0x4D4D4D4D4D4D4D4D).all()):
+                        bad = "cells next to output limb %d were modified" % i
+                    for role, sl in (("a", asl), ("b", bsl)):
+                        ws = sp.i64(base[role] + 8 * i * sl - 8 * 16, n + 32)
+                        if not (np.array_equal(ws[16:16 + n], data[(role, i)]) and (ws[:16] == 0x4D4D4D4D4D4D4D4D).all()):
+                            bad = bad or "operand %s limb %d modified" % (role, i)
+                    if bad:
+                        break
+                if bad:
+                    rec.violation(label + ": " + bad, {"op": op, "stride": stride, "who": who})
+                else:
+                    ok += 1
+    for m_ in mods.values():
+        L.delete_module(m_)
+    sp.close()
+    rec.data["ok"] = ok
+
+
 def drive_volume(rec, quick):
     """Large objects (2^22 coefficients and more: 32 MiB per operand), contiguous limbs, every operand at its own alignment class
     (0, 8, 16, 24 bytes past a 32-byte boundary).  The limb-wise entry points - coefficient and big-coefficient arithmetic, DFT, inverse DFT,
@@ -270,6 +371,9 @@ def run(chk, replay=None):
     dv = isolated(chk, "large volumes: every limb as on its own", drive_volume, (quick,), timeout=1800)
     chk.traces += dv["ok"] if dv else 0
     chk.cov["volume_calls_matching_limbwise"] = dv["ok"] if dv else 0
+    dh = isolated(chk, "limb strides of gigabytes (sparse mapping)", drive_huge_strides, (quick,), timeout=900)
+    chk.traces += dh["ok"] if dh else 0
+    chk.cov["huge_stride_calls"] = dh["ok"] if dh else 0
     chk.cov["exhaustive"] = True
     chk.cov["box"] = "sizes 0..3 x strides {N, N+delta, 2N} x aliasing {none, res=a, res=b, a=b, all} x 16 operations"
     chk.cov["rule"] = "one case = (direction, op, module kind, sizes, stride kinds, alias, N class); non-trivial when res_size > 0"
